@@ -187,6 +187,33 @@ def run(repo, rep, tier):
                 rep.finding("R9.6", f, (wit.stmt if wit is not None else f.node), f"toJsonFragment serialises `{sn}.{q}.name`, but `{q}` does not "
                             f"take part in {c.name}.__eq__ on every accepting path: two aggregators that differ only in their quantity "
                             f"(name) compare equal although their serialised documents differ", stmt=f"{q}: not compared")
+    # ---------------- R9.7 a mismatch flag, once set, stays set (no later assignment may overwrite it with a computed value)
+    r7 = rep.rule("R9.7", "mismatch flags of __eq__ are monotone: only the constant they start from or its negation is ever assigned", floor=19)
+    for c in prims:
+        f = repo.own_method(c, "__eq__")
+        assigns = {}
+        for n in walk_local_stmt(f.node):
+            if isinstance(n, ast.Assign) and len(n.targets) == 1 and isinstance(n.targets[0], ast.Name):
+                assigns.setdefault(n.targets[0].id, []).append(n)
+            elif isinstance(n, ast.AugAssign) and isinstance(n.target, ast.Name):
+                assigns.setdefault(n.target.id, []).append(n)
+        flags = {v: lst for v, lst in assigns.items()
+                 if sum(1 for a in lst if isinstance(a, ast.Assign) and isinstance(a.value, ast.Constant) and isinstance(a.value.value, bool)) >= 2}
+        bad = None
+        for v, lst in flags.items():
+            for a in lst:
+                if isinstance(a, ast.AugAssign) or not (isinstance(a.value, ast.Constant) and isinstance(a.value.value, bool)):
+                    # `flag = flag or <expr>` / `flag = flag and <expr>` keep the flag monotone
+                    val = a.value
+                    keeps = isinstance(val, ast.BoolOp) and any(isinstance(x, ast.Name) and x.id == v for x in val.values)
+                    if not keeps:
+                        bad = (v, a)
+        r7.ob(bad is None, f"{c.name}.__eq__: flags {sorted(flags)} monotone")
+        if bad is not None:
+            v, a = bad
+            rep.finding("R9.7", f, a, f"`{norm(a)[:70]}` overwrites the mismatch flag `{v}` with a computed value: a difference recorded earlier (in "
+                        f"another component of the same element) is forgotten when this comparison succeeds, so two aggregators with "
+                        f"different content compare equal", stmt=f"flag {v} overwritten: {norm(a)[:60]}")
     um = repo.modules.get("histogrammar.util")
     uf = um.classes.get("UserFcn") if um else None
     ueq = repo.own_method(uf, "__eq__") if uf is not None else None
@@ -344,6 +371,24 @@ def rule_isinstance_first(repo, rep, r2, c, f):
             b, _ = first_unguarded(e, states[n.id])
             if b is not None and (bad is None or (b.lineno, b.col_offset) < (bad[1].lineno, bad[1].col_offset)):
                 bad = (n, b)
+    # the class tested is the class itself: a wider test lets an aggregator of another primitive type compare equal
+    for e in ast.walk(f.node):
+        if is_inst(e):
+            targ = e.args[1]
+            members = targ.elts if isinstance(targ, ast.Tuple) else [targ]
+            foreign = []
+            for mem in members:
+                try:
+                    k = repo.resolve_name(f.module, ast.unparse(mem))
+                except Exception:
+                    k = None
+                if not (k is c or (hasattr(k, "name") and c in repo.mro(k))):
+                    foreign.append(ast.unparse(mem))
+            r2.ob(not foreign, f"{c.name}.__eq__: isinstance tests {ast.unparse(targ)}")
+            if foreign:
+                rep.finding("R9.2", f, e, f"`{ast.unparse(e)}` also accepts {foreign}: an aggregator of another type with the same fields compares "
+                            f"equal to a {c.name} (and == is no longer symmetric, since {foreign[0]}.__eq__ still rejects a {c.name})",
+                            stmt=f"isinstance accepts {foreign}")
     r2.ob(bad is None, f"{c.name}.__eq__")
     if bad is not None:
         n, b = bad
